@@ -53,3 +53,21 @@ Theorem C01_merge_marker_needed :
     merge_child me osym nsym child = sanitize me.
 Proof. intros me o n c H1 H2. unfold merge_child. rewrite H1, H2. reflexivity. Qed.
 Print Assumptions C01_merge_marker_needed.
+
+From GV Require Import Proofs.Embed.
+
+(* The embedding theorem (first half of "text splice = condensation"): a child written from its linking atom that
+   is spliced after any host prefix builds inside the host exactly what it builds alone -- same atoms in the same
+   order, same bonds, ring bonds and neighbour slots, renumbered by the host's atom and ring-bond counts -- plus one
+   bond from the host's current atom to the child's first atom. The only content hypothesis is freshness: no
+   ring-closure label of the child is open in the host at the splice point (exactly what the per-level relabelling
+   of to_smiles is meant to guarantee and what fails for 'Man(a1-3)1,6-Anhydro-Glc'-like bicyclic hosts). All
+   hosts, all children, all depths. *)
+Theorem C01_fragment_embeds :
+  forall (S : pst) (c : nat) (a0 : atom) (rest : list tok) (sk : pst),
+    p_cur S = Some c -> p_pend S = None -> length (p_slots S) = length (p_atoms S) ->
+    ~ In TDot rest -> fresh_labels S rest ->
+    run pst0 (TAtom a0 :: rest) = Some sk ->
+    run S (TAtom a0 :: rest) = Some (embed S c a0 sk).
+Proof. exact fragment_embeds. Qed.
+Print Assumptions C01_fragment_embeds.
